@@ -110,7 +110,7 @@ func c17Model(c c17Case, price, used int64) c17Verdict {
 		return c17Verdict{kind: "unchanged", exact: P}
 	}
 	if target.Sign() == 0 { // used > 0 = target: the relative excess is unbounded
-		return c17Verdict{kind: "zero-target"}
+		return c17Verdict{kind: "zero-target", overflow: price == math.MaxInt64}
 	}
 	diff := new(big.Int).Sub(U, target)
 	diff.Abs(diff)
@@ -201,7 +201,7 @@ func c17Exec(ctx *vk.Ctx, c c17Case) error {
 				return fmt.Errorf("%s: UpdateGasPrice panicked (%v) and left price %+v behind", where, pv, got)
 			}
 			switch {
-			case v.kind == "zero-target" && ctx.Known("zero-target-division"):
+			case v.kind == "zero-target" && !v.overflow && ctx.Known("zero-target-division"):
 				continue
 			case v.overflow && ctx.Known("increase-overflow-panic"):
 				continue
